@@ -39,25 +39,23 @@ theorem stepThread_good (hpl : 0 < pl) {s : State} (hg : Good crc pl blob s) (ti
       · exact good_finish hg ht (by rw [hpc]; rfl) (by rw [hpc]; simp)
       · split
         · exact good_finish hg ht (by rw [hpc]; rfl) (by rw [hpc]; simp)
-        · split
-          · exact good_finish hg ht (by rw [hpc]; rfl) (by rw [hpc]; simp)
-          · rename_i h1 h2 h3
-            apply good_local hg ht
-            · refine ⟨htok.sep, ?_⟩
-              simp only
-              have hidx : t.pi = ((t.pi.toNat : Nat) : Int) := by omega
-              have hlt : t.pi.toNat < numPiecesOf pl blob.length := by rw [← hg.len_pieces]; omega
-              refine ⟨hlt, ?_, hidx⟩
-              have h4 : (t.payload.length : Int) = s.mi.pieceLength t.pi := by
-                rcases Decidable.em ((t.payload.length : Int) = s.mi.pieceLength t.pi) with h | h
-                · exact h
-                · exact absurd h h3
-              rw [hmi, hidx, pieceLength_ofBlob crc pl blob hpl _ hlt] at h4
-              exact Int.ofNat.inj h4
-            · intro h; simp [holds] at h
-            · rw [hpc]; simp
-            · simp
-            · rw [hpc]; intro h; cases h
+        · rename_i h1 h3
+          apply good_local hg ht
+          · refine ⟨htok.sep, ?_⟩
+            simp only
+            have hidx : t.pi = ((t.pi.toNat : Nat) : Int) := by omega
+            have hlt : t.pi.toNat < numPiecesOf pl blob.length := by rw [← hg.len_pieces]; omega
+            refine ⟨hlt, ?_, hidx⟩
+            have h4 : (t.payload.length : Int) = s.mi.pieceLength t.pi := by
+              rcases Decidable.em ((t.payload.length : Int) = s.mi.pieceLength t.pi) with h | h
+              · exact h
+              · exact absurd h h3
+            rw [hmi, hidx, pieceLength_ofBlob crc pl blob hpl _ hlt] at h4
+            exact Int.ofNat.inj h4
+          · intro h; simp [holds] at h
+          · rw [hpc]; simp
+          · simp
+          · rw [hpc]; intro h; cases h
     case fastComplete =>
       have hv : Valid pl blob t := by have := htok.2; simpa [hpc] using this
       cases hp : s.pieces[t.idx]? with
@@ -282,8 +280,13 @@ theorem quiescent_countP {s : State} (hq : quiescent s = true) :
   simp [Thread.isDone] at this
   simp [this]
 
+theorem openTorrent_eq_core {s : State} (hg : Good crc pl blob s) : openTorrent s = openTorrentCore s := by
+  unfold openTorrent
+  rw [if_pos (Or.inr (by rw [hg.len_status, hg.mi_eq]; exact (numPieces_ofBlob crc pl blob).symm))]
+
 theorem reopen_good {s : State} (hg : Good crc pl blob s) (hq : quiescent s = true) :
     Good crc pl blob (openTorrent s) := by
+  rw [openTorrent_eq_core hg]
   have hdone := quiescent_done hq
   have hcnt := quiescent_countP hq
   have hthr : ∀ (s' : State), s'.threads = s.threads → ∀ (a : Nat) (u : Thread), s'.threads[a]? = some u →
@@ -298,7 +301,7 @@ theorem reopen_good {s : State} (hg : Good crc pl blob s) (hq : quiescent s = tr
     rw [hdone a ta ha] at hha; simp [holds] at hha
   have hnp : s.mi.numPieces = numPiecesOf pl blob.length := by
     rw [hg.mi_eq]; exact numPieces_ofBlob crc pl blob
-  unfold openTorrent
+  unfold openTorrentCore
   split
   · rename_i hic
     have hall := all_complete_of_num hg (hg.cache_num hic)
@@ -387,7 +390,11 @@ theorem init_good (crc : Bytes → Nat) (pl : Nat) (blob : Bytes) :
     intro n i h
     rw [List.getElem?_map, List.getElem?_replicate] at h
     split at h <;> simp at h
-  unfold init openTorrent
+  have hinit : init (MetaInfo.ofBlob crc pl blob) = openTorrentCore (fresh (MetaInfo.ofBlob crc pl blob)) := by
+    unfold init openTorrent fresh
+    rw [if_pos (Or.inr (by simp))]
+  rw [hinit]
+  unfold openTorrentCore fresh
   simp only [Bool.false_eq_true, if_false]
   split
   · refine { mi_eq := rfl, len_pieces := ?_, len_status := ?_, len_file := ?_, status_good := ?_,
